@@ -9,6 +9,7 @@ package c04
 import (
 	"fmt"
 	"os"
+	"strings"
 	"testing"
 
 	"pgregory.net/rapid"
@@ -106,6 +107,9 @@ func seqClasses(c seqCase) []string {
 		out = append(out, "no-final-eol")
 		nt = true
 	}
+	if l.Lead > 0 {
+		out = append(out, "blank-lines-before-the-first-header")
+	}
 	if len(l.Blank) > 0 {
 		out = append(out, "blank-lines")
 		nt = true
@@ -196,9 +200,34 @@ type featCase struct {
 	Gff        *iogen.GffFile `json:"gff,omitempty"`
 	CRLF       bool           `json:"crlf"`
 	NoFinalEOL bool           `json:"no_final_eol"`
+	// LongLine > 0 (GFF): the source column of the first feature is padded until its line has this
+	// many bytes (about 64 KiB: a reader with a fixed line limit sees the terminator make the difference)
+	LongLine int `json:"long_line,omitempty"`
+}
+
+func (c featCase) padded() *iogen.GffFile {
+	if c.Gff == nil || c.LongLine == 0 {
+		return c.Gff
+	}
+	g := *c.Gff
+	g.Items = append([]iogen.GffItem(nil), c.Gff.Items...)
+	for i, it := range g.Items {
+		if it.Kind != "feature" {
+			continue
+		}
+		one := iogen.GffFile{Width: g.Width, Items: []iogen.GffItem{it}}
+		n := len(strings.TrimSuffix(string(one.Text("\n", true)), "\n"))
+		if pad := c.LongLine - n; pad > 0 {
+			it.Source += strings.Repeat("x", pad)
+			g.Items[i] = it
+		}
+		break
+	}
+	return &g
 }
 
 func checkFeat(c featCase) *vlib.Failure {
+	c.Gff = c.padded()
 	eol := "\n"
 	if c.CRLF {
 		eol = "\r\n"
@@ -246,6 +275,9 @@ func featClasses(c featCase) []string {
 	if n == 0 {
 		return append(l, "no-records")
 	}
+	if c.LongLine >= 65533 {
+		l = append(l, "gff-line-of-about-64KiB")
+	}
 	if c.CRLF {
 		l = append(l, "crlf")
 	}
@@ -268,6 +300,9 @@ func TestFeatureLayout(t *testing.T) {
 			} else {
 				g := iogen.GenGffFile(t, 5)
 				c.Gff = &g
+				if rapid.IntRange(0, 49).Draw(t, "long-line") == 31 {
+					c.LongLine = rapid.SampledFrom([]int{65533, 65534, 65535, 65536, 65537, 4095, 4096, 131072}).Draw(t, "long-line-bytes")
+				}
 			}
 			return c
 		},
